@@ -1,5 +1,5 @@
 CONSTANTS EP = {"e1", "e2"}  Models = {"ma"}  Ask = {"ma", "mz"}  Kinds = {"ollama", "vllm"}
-          Routes = {"proxy", "ollama"}  MaxLen = 0
+          Routes = {"proxy", "ollama", "anthropic"}  MaxLen = 0
 SPECIFICATION Spec
 VIEW View
 INVARIANTS TypeOK ServedByCandidate CandsSound RefusedIsOut NeverListedNeverServed
